@@ -320,6 +320,13 @@ def gen_schema(rng, sw):
         if rng.random() < 0.6:
             # the reference-holding struct nested by value (so that it is reached as a view)
             schema.append({"k": "struct", "name": f"W{c}", "fields": [["k", sc], ["n", mid], ["n2", mid]], "decl": "class"})
+        if sw.get("long_refs") and rng.random() < 0.7:
+            # a long array of references (thresholds of bulk code paths lie well above the usual 1..4 items)
+            shape = [rng.choice([63, 64, 65, 70])]
+            name = f"Arr{sugar_suffix(shape)}{type_name(schema, rl)}"
+            if name not in names:
+                names.add(name)
+                schema.append({"k": "array", "name": name, "item": rl, "shape": shape, "order": [0], "decl": "sugar", "order_decl": None})
         if rng.random() < 0.5:
             shape = [rng.choice([None, 2, 3])]
             name = f"Arr{sugar_suffix(shape)}{type_name(schema, rm)}"
